@@ -19,6 +19,26 @@ _orig_np = SG.np
 REC = {}
 
 
+def _ramargin_test():
+    """the test under which getbounds uses the arcsine margin, taken from the source of the repository under test
+    (names: marginSize, sinMargin, cosDec, dec, ra); falls back to `sinMargin < cosDec`"""
+    import ast
+    import inspect
+    import textwrap
+    try:
+        tree = ast.parse(textwrap.dedent(inspect.getsource(_orig_chunks.getbounds)))
+        for n in ast.walk(tree):
+            if isinstance(n, ast.If) and len(n.body) == 1 and isinstance(n.body[0], ast.Assign) and \
+                    isinstance(n.body[0].targets[0], ast.Name) and n.body[0].targets[0].id == 'raMargin':
+                return compile(ast.Expression(n.test), '<getbounds raMargin test>', 'eval'), ast.unparse(n.test)
+    except Exception:  # noqa: BLE001
+        pass
+    return compile('sinMargin < cosDec', '<default>', 'eval'), 'sinMargin < cosDec (default)'
+
+
+_RM_TEST, _RM_TEXT = _ramargin_test()
+
+
 class RecChunks(_orig_chunks):
     def __init__(self, ra, dec, minSize):
         REC.clear()
@@ -29,13 +49,26 @@ class RecChunks(_orig_chunks):
         REC['decBounds'] = [float(x) for x in self.decBounds]
         REC['raBounds'] = [[float(x) for x in rb] for rb in self.raBounds]
         REC['raOffset'] = float(self.raOffset)
+        # what decides the grid (round 5): list-1 RA extremes after the rotation, the cosines chunks.__init__ used
+        # (recomputed with the same numpy expressions; cos is an input of the exact-rational grid model)
+        REC['raMin'] = float(self.raMin)
+        REC['raMax'] = float(self.raMax)
+        REC['cos'] = [float(self.cosDecMin(i)) for i in range(self.nDec)]
+        if abs(self.decBounds[self.nDec]) > abs(self.decBounds[0]):
+            REC['cos0'] = float(np.cos(np.deg2rad(self.decBounds[self.nDec])))
+        else:
+            REC['cos0'] = float(np.cos(np.deg2rad(self.decBounds[0])))
         REC['obj'] = self
 
     def getbounds(self, ra, dec, marginSize):
         # arguments of the call, and raMargin recomputed with the same numpy expressions as the (repaired) getbounds
         sinMargin = np.sin(np.deg2rad(marginSize))
         cosDec = np.cos(np.deg2rad(dec))
-        raMargin = float(np.rad2deg(np.arcsin(sinMargin / cosDec))) if sinMargin < cosDec else 360.0
+        try:
+            clear = bool(eval(_RM_TEST, {'np': np}, {'marginSize': marginSize, 'sinMargin': sinMargin, 'cosDec': cosDec, 'dec': dec, 'ra': ra}))
+        except Exception:  # noqa: BLE001
+            clear = bool(sinMargin < cosDec)
+        raMargin = float(np.rad2deg(np.arcsin(sinMargin / cosDec))) if clear else 360.0
         REC.setdefault('gbargs', []).append([float(ra), float(dec), float(marginSize), raMargin])
         try:
             r = super().getbounds(ra, dec, marginSize)
@@ -48,6 +81,7 @@ class RecChunks(_orig_chunks):
         return r
 
     def get(self, ra, dec):
+        REC.setdefault('getargs', []).append([float(ra), float(dec)])
         r = super().get(ra, dec)
         REC['cells'].append([int(r[1]), int(r[0])])   # (decChunk, raChunk)
         return r
@@ -112,7 +146,7 @@ def one(c):
     if record and 'nRa' in REC:
         obj = REC.pop('obj', None)
         rec = {k: REC.get(k) for k in ('nRa', 'nDec', 'decBounds', 'raBounds', 'raOffset', 'bounds', 'cells', 'perm',
-                                       'minSize', 'getbounds_errors', 'gbargs')}
+                                       'minSize', 'getbounds_errors', 'gbargs', 'getargs', 'raMin', 'raMax', 'cos', 'cos0')}
         if obj is not None:
             rec['chunklist'] = [[i, j, [int(x) for x in obj.chunkList[i][j]]]
                                 for i in range(obj.nDec) for j in range(obj.nRa[i]) if len(obj.chunkList[i][j]) > 0]
@@ -181,7 +215,7 @@ def main():
     if isinstance(calls, dict) and calls.get('mode') == 'history':
         json.dump({'pydl_file': pydl.__file__, 'histories': [history(h) for h in calls['histories']]}, sys.stdout)
         return
-    json.dump({'pydl_file': pydl.__file__, 'numpy': np.__version__, 'results': [one(c) for c in calls]}, sys.stdout)
+    json.dump({'pydl_file': pydl.__file__, 'numpy': np.__version__, 'ramargin_test': _RM_TEXT, 'results': [one(c) for c in calls]}, sys.stdout)
 
 
 if __name__ == '__main__':
